@@ -108,12 +108,20 @@ func (vc *VC) buildQuery(o *Obligation) string {
 			if seenDef[f[2]] {
 				usedDefs = append(usedDefs, d)
 			}
+		} else if strings.HasPrefix(d, "(assert (forall ((r_m Int))") {
+			// measure-array definition: keyed by the array constant
+			for name, dd := range vc.defOf {
+				if dd == d && seenDef[name] {
+					usedDefs = append(usedDefs, d)
+					break
+				}
+			}
 		}
 	}
 	var b strings.Builder
 	b.WriteString(vc.eng.sorts.prelude())
 	for _, d := range vc.decls {
-		if need[declName(d)] {
+		if need[declName(d)] || strings.HasPrefix(d, "(define-fun nn ") && need["nn"] {
 			b.WriteString(d)
 			b.WriteString("\n")
 		}
